@@ -135,6 +135,9 @@ func suiteMutate(tier string, seed uint64, model string) *Report {
 		[]any{int64(1), int64(2), int64(3)},
 		obj("a", obj("a", int64(1), "b", int64(2)), "b", obj("a", int64(3))),
 		[]any{obj("a", int64(1)), obj("a", int64(2), "b", int64(5)), obj("b", int64(3))},
+		// the first parents visited lack the member / the element
+		[]any{obj("b", int64(3)), obj("a", int64(1)), obj("a", int64(2), "b", int64(5))},
+		[]any{[]any{}, obj("b", int64(1)), []any{int64(7), int64(8)}, obj("a", int64(2))},
 	}
 	for _, dp := range dpaths {
 		for _, dd := range ddata {
@@ -257,6 +260,11 @@ func suiteMutate(tier string, seed uint64, model string) *Report {
 		rep.Count("op:" + name)
 		if strings.HasPrefix(errs, "F ") {
 			rep.Add(Disagreement{Case: desc, Where: name, Kind: "impl-vs-spec:mutate-panic", Impl: errs, Spec: ans[2*i]})
+			continue
+		}
+		// an impossible request must be an error on gen data as well, never a panic
+		if _, gerrs := run(toGen(deepCopy(c.data)), true); strings.HasPrefix(gerrs, "F ") {
+			rep.Add(Disagreement{Case: desc, Where: name + "/gen", Kind: "impl-vs-spec:mutate-panic", Impl: gerrs})
 			continue
 		}
 		if !comparable && !((hasSlice || filterRoot) && (varComparable || true)) {
